@@ -12,6 +12,7 @@ spec = {
             'fault': {'kind':..., 'k':..., 'exc':...} | None, 'threaded': bool } ... ]
 }
 """
+import copy
 import sys
 import traceback
 
@@ -23,8 +24,14 @@ EXEC_OPS = ('run', 'call', 'evaluate')
 INSTRUCTOR_FILE = 'instructor.py'
 
 
+_SR = []
+
+
 def unwrap(x):
-    from pedal.sandbox.result import SandboxResult
+    if not _SR:
+        from pedal.sandbox.result import SandboxResult
+        _SR.append(SandboxResult)
+    SandboxResult = _SR[0]
     n = 0
     while type(x) is SandboxResult and n < 5:
         x = x._actual_value
@@ -101,6 +108,9 @@ class SbxRun:
         from pedal.core.report import MAIN_REPORT
         from pedal.core.submission import Submission
         from pedal.sandbox.commands import get_sandbox
+        from pedal.sandbox import commands as C
+        self.C = C            # bound now: after a leaked sys.modules patch nothing in pedal can be imported
+        unwrap(None)
         self.console = world.install_console()
         world.install_virtual_time()
         MAIN_REPORT.clear()
@@ -130,7 +140,7 @@ class SbxRun:
     def do_op(self, index, op):
         kind = op['op']
         sb = self.sandbox
-        from pedal.sandbox import commands as C
+        C = self.C
         o = {'op': kind, 'index': index}
         if kind not in EXEC_OPS:
             if kind == 'set_input':
@@ -167,7 +177,7 @@ class SbxRun:
             if kind == 'run':
                 refres = self.ref.run(op.get('code'), op.get('filename'), fault=rfault)
             elif kind == 'call':
-                refres = self.ref.call(op['fn'], tuple(op.get('args', ())), dict(op.get('kwargs', {})), fault=rfault)
+                refres = self.ref.call(op['fn'], tuple(copy.deepcopy(op.get('args', ()))), copy.deepcopy(dict(op.get('kwargs', {}))), fault=rfault)
             else:
                 refres = self.ref.evaluate(op['expr'], fault=rfault)
             rv = refres.pop('value')
@@ -198,8 +208,8 @@ class SbxRun:
                     ret = C.run(code=op.get('code'), filename=op.get('filename'), inputs=inputs,
                                 threaded=op.get('threaded'))
                 elif kind == 'call':
-                    ret = C.call(op['fn'], *op.get('args', ()), inputs=inputs, threaded=op.get('threaded'),
-                                 target=op.get('target', '_'), **op.get('kwargs', {}))
+                    ret = C.call(op['fn'], *copy.deepcopy(op.get('args', ())), inputs=inputs, threaded=op.get('threaded'),
+                                 target=op.get('target', '_'), **copy.deepcopy(op.get('kwargs', {})))
                 else:
                     ret = C.evaluate(op['expr'], threaded=op.get('threaded'))
             finally:
@@ -212,6 +222,7 @@ class SbxRun:
         o['escaped'] = escaped
         o['nS'], o['nI'], o['nP'] = MONITOR.nS, MONITOR.nI, MONITOR.nP
         o['fired'] = [dict(f) for f in MONITOR.fired[fired_before:]]
+        o['fault_matches'] = MONITOR.last_count
         problems, tolerated = world.diff_globals(before, sb)
         o['global_problems'] = problems
         o['tolerated_modules'] = tolerated
